@@ -40,7 +40,7 @@ def obligations(ctx, key, pid):
     obs = []
     tname = "translate:%s[%s]" % (spec["file"], ",".join(f["name"] for f in spec["functions"]))
     try:
-        text, info = pygal.translate(C.REPO, spec)
+        text, info = spec.get("translate", pygal.translate)(C.REPO, spec)     # pygal_m.translate for monadic units
     except pygal.Unsupported as e:
         return [dict(name=tname, ok=False, axioms=[],
                      detail="source left the translatable subset: %s" % e)], None
@@ -51,12 +51,16 @@ def obligations(ctx, key, pid):
                                        for n, f in info["functions"].items()))))
     gen = os.path.join(d, spec["module"] + ".v")
     open(gen, "w").write(text)
-    prf_src = os.path.join(SRCPROOFS, spec["proofs"] + ".v")
-    prf = os.path.join(d, spec["proofs"] + ".v")
-    shutil.copy(prf_src, prf)
-    ptext = open(prf).read()
-    bad = _hygiene(text, spec["module"] + ".v") + _hygiene(ptext, "srcproofs/" + spec["proofs"] + ".v")
-    obs.append(dict(name="hygiene(srcproofs/%s.v + generated)" % spec["proofs"], ok=not bad, axioms=[],
+    # proof files: the ones shared by all properties of the unit (spec["proof_deps"]) first, then the property's own
+    files = list(spec.get("proof_deps", [])) + [spec["proofs"]]
+    texts = {}
+    for name in files:
+        shutil.copy(os.path.join(SRCPROOFS, name + ".v"), os.path.join(d, name + ".v"))
+        texts[name] = open(os.path.join(d, name + ".v")).read()
+    bad = _hygiene(text, spec["module"] + ".v")
+    for name in files:
+        bad += _hygiene(texts[name], "srcproofs/" + name + ".v")
+    obs.append(dict(name="hygiene(srcproofs/%s.v + generated)" % ".v, ".join(files), ok=not bad, axioms=[],
                     detail="; ".join(bad)[:400] if bad else "clean"))
     args = ["coqc", "-R", C.COQ, "TQ", "-Q", d, "Src", "-w", "-all"]
     rc, out = C.sh(args + [gen], 600, cwd=d)
@@ -64,36 +68,44 @@ def obligations(ctx, key, pid):
                     detail="ok" if rc == 0 else out.strip()[-600:]))
     if rc != 0:
         return obs, info
-    wanted = re.findall(r"Print Assumptions\s+([\w.']+)\s*\.", ptext)
-    theorems = re.findall(r"^\s*(?:Theorem|Corollary)\s+([\w']+)", ptext, re.M)
-    rc, out = C.sh(args + [prf], 900, cwd=d)
-    if rc != 0:
-        m = re.search(r"line (\d+), characters", out)
-        line = int(m.group(1)) if m else 0
-        failing = None
-        for mm in re.finditer(r"^\s*(?:Theorem|Lemma|Corollary|Example)\s+([\w']+)", ptext, re.M):
-            if ptext.count("\n", 0, mm.start()) + 1 <= line:
-                failing = mm.group(1)
-        obs.append(dict(name="%s (srcproofs/%s.v)" % (failing or "?", spec["proofs"]), ok=False, axioms=[],
-                        detail="no longer checks against the generated definitions: " + " ".join(out.split())[-500:]))
+    broken = None
+    for name in files:
+        ptext = texts[name]
+        wanted = re.findall(r"Print Assumptions\s+([\w.']+)\s*\.", ptext)
+        theorems = re.findall(r"^\s*(?:Theorem|Corollary)\s+([\w']+)", ptext, re.M)
+        if broken is not None:
+            for t in theorems:
+                obs.append(dict(name=t, ok=False, axioms=[], detail="not re-checked (srcproofs/%s.v failed)" % broken))
+            continue
+        rc, out = C.sh(args + [os.path.join(d, name + ".v")], 900, cwd=d)
+        if rc != 0:
+            m = re.search(r"line (\d+), characters", out)
+            line = int(m.group(1)) if m else 0
+            failing = None
+            for mm in re.finditer(r"^\s*(?:Theorem|Lemma|Corollary|Example)\s+([\w']+)", ptext, re.M):
+                if ptext.count("\n", 0, mm.start()) + 1 <= line:
+                    failing = mm.group(1)
+            obs.append(dict(name="%s (srcproofs/%s.v)" % (failing or "?", name), ok=False, axioms=[],
+                            detail="no longer checks against the generated definitions: " + " ".join(out.split())[-500:]))
+            for t in theorems:
+                if t != failing:
+                    obs.append(dict(name=t, ok=False, axioms=[], detail="not re-checked (file failed at %s)" % failing))
+            broken = name
+            continue
+        blocks = [b for b in re.split(r"(?=Closed under the global context|Axioms:)", out)
+                  if b.startswith("Closed") or b.startswith("Axioms:")]
+        for i, tname in enumerate(wanted):
+            if i >= len(blocks):
+                obs.append(dict(name=tname, ok=False, axioms=[], detail="no Print Assumptions output"))
+            elif blocks[i].startswith("Closed"):
+                obs.append(dict(name=tname, ok=True, axioms=[], detail="Closed under the global context (re-checked "
+                                "against the definitions generated from the current source)"))
+            else:
+                ax = [a for a in re.findall(r"^([\w.']+)\s*:", blocks[i], re.M) if a != "Axioms"]
+                badax = [a for a in ax if a not in C.ALLOWED_AXIOMS]
+                obs.append(dict(name=tname, ok=not badax, axioms=ax,
+                                detail=("axioms: " + ", ".join(ax)) if not badax else ("disallowed: " + ", ".join(badax))))
         for t in theorems:
-            if t != failing:
-                obs.append(dict(name=t, ok=False, axioms=[], detail="not re-checked (file failed at %s)" % failing))
-        return obs, info
-    blocks = [b for b in re.split(r"(?=Closed under the global context|Axioms:)", out)
-              if b.startswith("Closed") or b.startswith("Axioms:")]
-    for i, name in enumerate(wanted):
-        if i >= len(blocks):
-            obs.append(dict(name=name, ok=False, axioms=[], detail="no Print Assumptions output"))
-        elif blocks[i].startswith("Closed"):
-            obs.append(dict(name=name, ok=True, axioms=[], detail="Closed under the global context (re-checked against "
-                            "the definitions generated from the current source)"))
-        else:
-            ax = [a for a in re.findall(r"^([\w.']+)\s*:", blocks[i], re.M) if a != "Axioms"]
-            badax = [a for a in ax if a not in C.ALLOWED_AXIOMS]
-            obs.append(dict(name=name, ok=not badax, axioms=ax,
-                            detail=("axioms: " + ", ".join(ax)) if not badax else ("disallowed: " + ", ".join(badax))))
-    for t in theorems:
-        if t not in wanted:
-            obs.append(dict(name=t, ok=False, axioms=[], detail="theorem without Print Assumptions"))
+            if t not in wanted:
+                obs.append(dict(name=t, ok=False, axioms=[], detail="theorem without Print Assumptions"))
     return obs, info
